@@ -16,6 +16,13 @@
 (*   RoundTrip(kind, p, res)       reader(writer(p))                       *)
 (*   MeshRank(p, R, rank)          MeshPatt(p, R).rank()                   *)
 (*   MeshUnrank(p, r, raised, R)   MeshPatt.unrank(p, r)                   *)
+(*   GenCount(gen, arg, count)     a generator run to its end produced     *)
+(*                                 count permutations                      *)
+(*   MeshListed(k, idx, haspatt, p, R)  the idx-th output (0-based) of      *)
+(*                                 MeshPatt.of_length(k) / of_length(k, p) *)
+(*   MeshListedEnd(k, haspatt, count)  such a listing run to its end        *)
+(* Permutations longer than TMaxLen (up to length 12) are ranked without   *)
+(* enumeration (LRankBySplit, cross-checked in LibSanity_LexRank).         *)
 (***************************************************************************)
 EXTENDS LexRank, Json, IOUtils
 CONSTANTS TMaxLen, TNonInt
@@ -30,8 +37,11 @@ PermsTab == [n \in 0..TMaxLen |-> LAllPerms(n)]
 \* number of shorter permutations, counted from the table
 CountSeq == [k \in 1..(TMaxLen + 1) |-> Cardinality(PermsTab[k - 1])]
 ShorterTab == [n \in 0..(TMaxLen + 1) |-> LShorterFromCounts(CountSeq, n)]
-InRange(p) == PIsPerm(p) /\ Len(p) <= TMaxLen
-RankOf(p) == ShorterTab[Len(p)] + LRankIn(PermsTab[Len(p)], p)
+TLongMax == 12       \* 12! and the number of permutations shorter than 13 fit TLC's 32-bit integers
+InRange(p) == PIsPerm(p) /\ Len(p) <= TLongMax
+RankInLength(p) == IF Len(p) <= TMaxLen THEN LRankIn(PermsTab[Len(p)], p) ELSE LRankBySplit(p)
+RankOf(p) == IF Len(p) <= TMaxLen THEN ShorterTab[Len(p)] + LRankIn(PermsTab[Len(p)], p) ELSE LOverallRankBySplit(p)
+CountOf(n) == IF n <= TMaxLen THEN Cardinality(PermsTab[n]) ELSE PFact(n)
 
 TInit == l = 1 /\ bad = <<>>
 TUnrank == /\ Ev.op = "Unrank"
@@ -40,19 +50,23 @@ TUnrank == /\ Ev.op = "Unrank"
               ELSE IF ~InRange(Ev.res) THEN Judge(FALSE, "UnrankYieldsPermutation")
               ELSE Judge(RankOf(Ev.res) = Ev.r, "UnrankIsInverseOfRank")
 TUnrankN == /\ Ev.op = "UnrankN"
-            /\ LET valid == Ev.r >= 0 /\ Ev.r < Cardinality(PermsTab[Ev.n]) IN
+            /\ LET valid == Ev.r >= 0 /\ Ev.r < CountOf(Ev.n) IN
                IF ~valid THEN Judge(Ev.raised, "UnrankNRejectsOutOfRange")
                ELSE IF Ev.raised THEN Judge(FALSE, "UnrankNTotalOnRange")
                ELSE IF ~(PIsPerm(Ev.res) /\ Len(Ev.res) = Ev.n) THEN Judge(FALSE, "UnrankNYieldsLength")
-               ELSE Judge(LRankIn(PermsTab[Ev.n], Ev.res) = Ev.r, "UnrankNIsRankInLength")
+               ELSE Judge(RankInLength(Ev.res) = Ev.r, "UnrankNIsRankInLength")
 TRank == /\ Ev.op = "Rank"
          /\ Judge(RankOf(Ev.p) = Ev.res, "RankIsNumberOfSmaller")
 TLess == /\ Ev.op = "Less"
          /\ Judge(Ev.lt = PPermLess(Ev.a, Ev.b), "LessIsLengthLex")
 TNextOf == /\ Ev.op = "NextOf"
-           /\ IF ~PPermLess(Ev.p, Ev.q) THEN Judge(FALSE, "GeneratorIncreasing")
-              ELSE Judge(~\E r \in PermsTab[Len(Ev.p)] \cup PermsTab[Len(Ev.q)] : PPermLess(Ev.p, r) /\ PPermLess(r, Ev.q),
-                         "GeneratorSkipsNothing")
+           /\ IF ~(InRange(Ev.p) /\ InRange(Ev.q)) THEN Judge(FALSE, "GeneratorYieldsPermutations")
+              ELSE IF ~PPermLess(Ev.p, Ev.q) THEN Judge(FALSE, "GeneratorIncreasing")
+              ELSE IF Len(Ev.q) <= TMaxLen
+                   THEN Judge(~\E r \in PermsTab[Len(Ev.p)] \cup PermsTab[Len(Ev.q)] : PPermLess(Ev.p, r) /\ PPermLess(r, Ev.q),
+                              "GeneratorSkipsNothing")
+              \* too long to enumerate: nothing lies between iff the number of smaller permutations grows by one
+              ELSE Judge(RankOf(Ev.q) = RankOf(Ev.p) + 1, "GeneratorSkipsNothing")
 TStd == /\ Ev.op = "Std"
         /\ IF Ev.res # PStd(Ev.pat) THEN Judge(FALSE, "StdIsDefinition")
            ELSE Judge(LIsStdOf(Ev.res, Ev.pat), "StdIsOrderIsomorphic")
@@ -86,7 +100,27 @@ TMeshUnrank == /\ Ev.op = "MeshUnrank"
                   ELSE IF Ev.raised THEN Judge(FALSE, "MeshUnrankTotalOnRange")
                   ELSE IF ~(ToSetOf(Ev.R) \subseteq MCells(k)) \/ Len(Ev.R) # Cardinality(ToSetOf(Ev.R)) THEN Judge(FALSE, "MeshUnrankYieldsShading")
                   ELSE Judge(MRank(MMesh(Ev.p, ToSetOf(Ev.R))) = Ev.r, "MeshUnrankIsInverseOfRank")
+\* a listing run to its end: all permutations of the length / of all lengths up to it / the first arg ones
+TGenCount == /\ Ev.op = "GenCount"
+             /\ Judge(Ev.count = (CASE Ev.gen = "of_length" -> CountOf(Ev.arg)
+                                   [] Ev.gen = "up_to_length" -> (IF Ev.arg <= TMaxLen THEN ShorterTab[Ev.arg + 1] ELSE PSumFact(Ev.arg + 1))
+                                   [] Ev.gen = "first" -> Ev.arg), "GeneratorYieldsAll")
+\* position in the listing = (number of smaller underlying patterns) * (number of shadings) + rank of the shading;
+\* with the underlying pattern given, the listing is that of its shadings alone
+TMeshListed == /\ Ev.op = "MeshListed"
+               /\ LET k == Ev.k  R == ToSetOf(Ev.R) IN
+                  IF ~(PIsPerm(Ev.p) /\ Len(Ev.p) = k /\ R \subseteq MCells(k) /\ Len(Ev.R) = Cardinality(R))
+                  THEN Judge(FALSE, "MeshOfLengthYieldsMeshPatterns")
+                  ELSE IF Ev.haspatt
+                  THEN Judge(Ev.p = Ev.patt /\ MRank(MMesh(Ev.p, R)) = Ev.idx, "MeshOfLengthInRankOrder")
+                  ELSE Judge(LRankIn(PermsTab[k], Ev.p) * MPow2((k + 1) * (k + 1)) + MRank(MMesh(Ev.p, R)) = Ev.idx,
+                             "MeshOfLengthInRankOrder")
+\* a listing of mesh patterns run to its end: every shading of every underlying pattern (or of the given one)
+TMeshListedEnd == /\ Ev.op = "MeshListedEnd"
+                  /\ Judge(Ev.count = (IF Ev.haspatt THEN 1 ELSE Cardinality(PermsTab[Ev.k])) * MPow2((Ev.k + 1) * (Ev.k + 1)),
+                           "MeshOfLengthExactlyOnce")
 TNext == /\ l <= Len(Trace) /\ l' = l + 1
-         /\ (TUnrank \/ TUnrankN \/ TRank \/ TLess \/ TNextOf \/ TStd \/ TValid \/ TRead \/ TRoundTrip \/ TMeshRank \/ TMeshUnrank)
+         /\ (TUnrank \/ TUnrankN \/ TRank \/ TLess \/ TNextOf \/ TStd \/ TValid \/ TRead \/ TRoundTrip \/ TMeshRank \/ TMeshUnrank
+             \/ TMeshListed \/ TMeshListedEnd \/ TGenCount)
 TraceDone == l = Len(Trace) + 1 => PrintT(ToJson([verdict |-> bad, drift |-> <<>>, n |-> Len(Trace)]))
 =============================================================================
